@@ -350,10 +350,6 @@ impl SK {
     /// get_transactions: does the appearance belong to the answer? (filter: `script` = the other
     /// script, exact — the documentation says "filter cells by type script", no prefix — and
     /// `block_range`).
-    pub fn ev_matches(&self, e: &Ev) -> bool {
-        self.ev_matches_with(e, Quirks::default())
-    }
-
     pub fn ev_matches_with(&self, e: &Ev, q: Quirks) -> bool {
         let Some(s) = self.searched(&e.lock, &e.type_) else {
             return false;
